@@ -41,12 +41,14 @@ def select(ctx, cases):
             else:
                 rest.append(c)
         else:
-            if none:
-                ess.append(c)                       # whole domain, all four runner modes
-            elif k != "ext" and (k != "exit" or n in REP_EXITS):
-                ess.append(c)                       # child behaviours: all signals, representative exit codes
+            if none and (c["runner"] == rot or boundary or k == "raise" or (k == "exit" and n in REP_EXITS)):
+                ess.append(c)       # whole domain on the rotated runner; all signals + 16 exit codes on the others
+            elif not none and boundary and k != "ext":
+                ess.append(c)       # every child behaviour x the class boundaries, all four runner modes
+            elif not none and c["runner"] == rot and k == "raise":
+                ess.append(c)       # every child behaviour x every signal on the rotated runner
             else:
-                rest.append(c)
+                rest.append(c)      # the remaining part of the 9392-case space: until the time budget is used up
     rng.shuffle(ess)
     rng.shuffle(rest)
     return ess, rest
@@ -126,7 +128,7 @@ def run(ctx):
     distinct = len(set((o["runner"], o["kind"], o["n"]) for o in obs))
     return dict(evaluations=len(obs), distinct=distinct,
                 rule="one evaluation = one real run of the probe under a runner, judged by TLC; distinct = (runner, way of ending, code/signal)",
-                exhaustive=not ctx.quick())
+                exhaustive=False)
 
 
 def _w(ctx, name, rows):
